@@ -3,7 +3,7 @@
    mergeChunks reassemble. *)
 From Coq Require Import ZArith List Bool Lia.
 From Coq.Strings Require Import Byte.
-From Opcua Require Import Model.Layout Model.ChunkBytes Model.ChunkModel Proofs.LayoutProofs Proofs.ChunkBytesProofs Gen.ArithFromGo.
+From Opcua Require Import Model.Layout Model.ChunkBytes Model.ChunkModel Proofs.LayoutProofs Proofs.ChunkBytesProofs Gen.ArithFromGo Gen.ChunkPreds.
 Import ListNotations.
 Open Scope Z_scope.
 
@@ -46,7 +46,7 @@ Lemma verify_decrypt_enc R m pnone asym hl H' P n s c :
   verify_decrypt m pnone asym R hl (H' ++ c) = Ok P.
 Proof.
   intros Henc Hby Hhl HH Hn Hdec Hs Hver.
-  unfold verify_decrypt.
+  unfold verify_decrypt, go_recvExtraPadding.
   assert (Hbypass : (match m with ModeNone => true | _ => false end) && (pnone || negb asym) = false).
   { destruct m; try reflexivity. destruct (Hby eq_refl) as [-> ->]. reflexivity. }
   rewrite Hbypass, Henc.
